@@ -73,6 +73,30 @@ func newGraph(f *Func, g *cfg.CFG) *Graph {
 			}
 		}
 	}
+	if len(gr.dead) > 0 && len(g.Blocks) > 0 {
+		// code behind a constant-false condition is not part of the program:
+		// keep only the blocks reachable over feasible edges
+		seen := map[*cfg.Block]bool{g.Blocks[0]: true}
+		work := []*cfg.Block{g.Blocks[0]}
+		for len(work) > 0 {
+			b := work[0]
+			work = work[1:]
+			for k, s := range b.Succs {
+				if gr.dead[Edge{b, k}] || seen[s] {
+					continue
+				}
+				seen[s] = true
+				work = append(work, s)
+			}
+		}
+		var live []*cfg.Block
+		for _, b := range gr.Blocks {
+			if seen[b] {
+				live = append(live, b)
+			}
+		}
+		gr.Blocks = live
+	}
 	return gr
 }
 
